@@ -55,8 +55,96 @@ Example ex_link_fails :
   end.
 Proof. vm_compute. discriminate. Qed.
 
+(* ---------- partial linking ---------- *)
+
+(* the main script of a partial build is flat, and so is each per-segment script *)
+Theorem C13_script_flat_partial : forall d rt p,
+  gen_partial d rt = Ok p ->
+  script_flat (wo_script (po_main p)) = true /\
+  Forall (fun sub => script_flat (wo_script (snd sub)) = true) (po_subs p).
+Proof. exact flat_gen_partial. Qed.
+
+(* the header of a partial build is [header_text rt st (po_main p)] (save_other_files_partial hands the
+   main writer to save_other_files_normal), it declares [linker_symbols (po_main p)]: every such name is
+   defined by a final pass over the main script that ends without error *)
+Theorem C13_header_defined_partial : forall env senv ext d rt p st sym,
+  gen_partial d rt = Ok p ->
+  let st' := exec_script env senv ext true (wo_script (po_main p)) st in
+  l_errors st' = [] -> In sym (linker_symbols (po_main p)) -> exists v, lookup sym (l_syms st') = Some v.
+Proof. exact header_symbols_defined_partial. Qed.
+
+Theorem C13_header_defined_partial_layout : forall d rt p u ext0 sym,
+  gen_partial d rt = Ok p ->
+  let st' := layout (wo_script (po_main p)) u ext0 in
+  l_errors st' = [] -> In sym (linker_symbols (po_main p)) -> exists v, lookup sym (l_syms st') = Some v.
+Proof. exact header_symbols_defined_partial_layout. Qed.
+
+(* the per-segment scripts: whatever such a script records is defined by a final pass over it *)
+Theorem C13_sub_defined_partial : forall env senv ext d rt p name w st sym,
+  gen_partial d rt = Ok p -> In (name, w) (po_subs p) ->
+  let st' := exec_script env senv ext true (wo_script w) st in
+  l_errors st' = [] -> In sym (linker_symbols w) -> exists v, lookup sym (l_syms st') = Some v.
+Proof. exact sub_symbols_defined_partial. Qed.
+
+(* the header the partial command writes is the header of the main writer *)
+Example ex_partial_header_is_main :
+  match gen_partial ex_doc ex_rt with
+  | Ok p =>
+      match save_other_files_partial ex_rt (doc_settings ex_doc) p with
+      | Ok ws => lookup "include/syms.h" ws = Some (header_text ex_rt (doc_settings ex_doc) (po_main p))
+      | Err _ => False
+      end
+  | Err _ => False
+  end.
+Proof. vm_compute. reflexivity. Qed.
+
+(* the partial objects of the sample document (what `ld -r` makes of the two sub-scripts) *)
+Definition ex_universe_partial : list usec :=
+  [USec "build/segments/boot.o" None ".text" 64 16 false "boot_text";
+   USec "build/segments/boot.o" None ".data" 12 8 false "boot_data";
+   USec "build/segments/boot.o" None ".bss" 108 8 true "boot_bss";
+   USec "build/segments/ovl_a.o" None ".text" 24 4 false "a_text";
+   USec "build/segments/ovl_a.o" None ".bss" 8 4 true "a_bss"].
+
+(* the sample document in partial mode: both scripts of the two segments and the main script are flat, the
+   link of the main script ends without error, and the header names are all defined *)
+Example ex_header_defined_partial :
+  match gen_partial ex_doc ex_rt with
+  | Ok p =>
+      let st := layout (wo_script (po_main p)) ex_universe_partial [("main", 5)] in
+      script_flat (wo_script (po_main p)) = true /\
+      map (fun sub => script_flat (wo_script (snd sub))) (po_subs p) = [true; true] /\
+      l_errors st = [] /\ List.length (linker_symbols (po_main p)) = 51%nat /\
+      forallb (fun x => is_some (lookup x (l_syms st))) (linker_symbols (po_main p)) = true
+  | Err _ => False
+  end.
+Proof. vm_compute. repeat split; reflexivity. Qed.
+
+(* observation: a linker_offset entry is written (and recorded) in the per-segment script only, so the header
+   of a partial build - taken from the main writer - has one name less than the ordinary header *)
+Example ex_partial_header_without_offsets :
+  match gen_normal ex_doc ex_rt, gen_partial ex_doc ex_rt with
+  | Ok w, Ok p =>
+      filter (fun x => negb (mem_str x (linker_symbols (po_main p)))) (linker_symbols w) = ["boot_mid_OFFSET"] /\
+      flat_map (fun sub => linker_symbols (snd sub)) (po_subs p) = ["boot_mid_OFFSET"]
+  | _, _ => False
+  end.
+Proof. vm_compute. split; reflexivity. Qed.
+
+(* without the required symbol "main" the link of the main script fails, and the theorem says nothing *)
+Example ex_link_fails_partial :
+  match gen_partial ex_doc ex_rt with
+  | Ok p => l_errors (layout (wo_script (po_main p)) ex_universe_partial []) <> []
+  | Err _ => False
+  end.
+Proof. vm_compute. discriminate. Qed.
+
 Print Assumptions C13_defined.
 Print Assumptions C13_recorded_flat.
 Print Assumptions C13_script_flat.
 Print Assumptions C13_header_defined.
 Print Assumptions C13_header_defined_layout.
+Print Assumptions C13_script_flat_partial.
+Print Assumptions C13_header_defined_partial.
+Print Assumptions C13_header_defined_partial_layout.
+Print Assumptions C13_sub_defined_partial.
